@@ -221,7 +221,7 @@ mut("c16_migrate_drops_markers", "src/tools/utils.rs", "            Ok(record) =
 mut("c16_collector_counts_keys", "src/tools/collectors.rs", "    fn add_record(&mut self, record: Record) {\n        self.records += 1;", "    fn add_record(&mut self, record: Record) {\n        self.records = self.keys.len() + 1;", ["C16"], "BlobSummaryCollector counts unique keys instead of records")
 # ---- C17
 mut("c17_hasher_keys", "src/filter/bloom.rs", "AHasher::new_with_keys((i + 1) as u128, (i + 2) as u128)", "AHasher::new_with_keys((i + 2) as u128, (i + 3) as u128)", ["C17"], "self-consistent change of the bloom hash seeds")
-mut("c17_block_size", "src/blob/index/bptree/core.rs", "pub(super) const BLOCK_SIZE: usize = 4096;", "pub(super) const BLOCK_SIZE: usize = 2048;", ["C17"], "EQUIVALENT for reading: the reader takes all offsets from the file header, the block size only sizes its buffers; files written by the pinned release are answered identically")
+mut("c17_block_size", "src/blob/index/bptree/core.rs", "pub(super) const BLOCK_SIZE: usize = 4096;", "pub(super) const BLOCK_SIZE: usize = 2048;", ["C17"], "block size 2048: the reader fetches one BLOCK_SIZE window per leaf, so the upper half of every 4096-byte leaf written by the pinned release is invisible. MISSED by the first corpus (every blob fitted into half a leaf) - I had wrongly labelled it equivalent; seed C17-block-size-2048 showed it. The corpus now has -big directories (multi-leaf, two-level indexes)")
 mut("c17_record_field_order", "src/record/record.rs", "    flags: u8,\n    blob_offset: u64,\n    timestamp: u64,", "    blob_offset: u64,\n    flags: u8,\n    timestamp: u64,", ["C17"], "self-consistent change of the record header layout")
 mut("c17_range_field_order", "src/filter/range.rs", """    #[serde(serialize_with = "serialize_key", deserialize_with = "deserialize_key")]
     min: K,
